@@ -41,7 +41,9 @@ var c18Shapes = []c18Shape{
 	}},
 	{name: "only-non-uri-names", ext: func() []byte { return pki.CDPValue([][]string{{"dns:crl.test"}}) }},
 	{name: "empty-sequence", ext: func() []byte { return []byte{0x30, 0x00} }},
-	{name: "https-then-http", locations: []string{"https://crl.test/c18/d0", c18Delta(1)}, ext: func() []byte { return pki.CDPValue([][]string{{"uri:https://crl.test/c18/d0"}, {"uri:" + c18Delta(1)}}) }},
+	{name: "https-then-http", locations: []string{"https://crl.test/c18/d0", c18Delta(1)}, ext: func() []byte {
+		return pki.CDPValue([][]string{{"uri:https://crl.test/c18/d0"}, {"uri:" + c18Delta(1)}})
+	}},
 	{name: "https-only", locations: []string{"https://crl.test/c18/d0"}, ext: func() []byte { return pki.CDPValue([][]string{{"uri:https://crl.test/c18/d0"}}) }},
 	{name: "malformed-outer", malformed: true, ext: func() []byte { return []byte{0x31, 0x00} }},
 	{name: "malformed-point", malformed: true, ext: func() []byte { return []byte{0x30, 0x03, 0x30, 0x05, 0x00} }},
@@ -387,7 +389,9 @@ func (s *c18Scenario) body(c *mc.Ctx) {
 					c.Fail(sig("nil bundle without error"), "history %v", hist)
 					return
 				}
-				eff := func(rl *x509.RevocationList) bool { return rl != nil && !rl.NextUpdate.IsZero() && rl.NextUpdate.After(time.Now()) }
+				eff := func(rl *x509.RevocationList) bool {
+					return rl != nil && !rl.NextUpdate.IsZero() && rl.NextUpdate.After(time.Now())
+				}
 				fromCache := lastGot != nil && bundle == lastGot
 				downloaded := containsStr(reqs, c18Base)
 				switch {
@@ -502,7 +506,9 @@ func init() {
 			"each fetch is judged from the request and cache-operation log against the statement and against a reference model of the fetcher; 32 MiB bodies in a separate scenario.", len(c18Events), len(c18Shapes)),
 		Assumptions: []string{"a URI that shares a distribution-point name with a non-URI name is a don't-care (recorded)", "cached CRLs sit >= 24 h from the nextUpdate boundary"},
 		Scenarios:   c18Scenarios,
-		Alphabet:    func(mc.Tier) map[string]int { return map[string]int{"events": len(c18Events), "freshest_shapes": len(c18Shapes), "option_sets": 3} },
+		Alphabet: func(mc.Tier) map[string]int {
+			return map[string]int{"events": len(c18Events), "freshest_shapes": len(c18Shapes), "option_sets": 3}
+		},
 		Guards: func(s *mc.Stats, t mc.Tier) []string {
 			var w []string
 			for _, o := range []string{"fetch:hit", "fetch:download", "fetch:error"} {
